@@ -77,8 +77,8 @@ func injectAndCollect(s tcell.SimulationScreen, inject func()) ([]tcell.Event, b
 }
 
 func C18(r *core.Run) {
-	r.Rule = "SimulationScreen in UTF-8 and legacy charsets, in lock-step with the shared shadow model: seeded draw histories (SetContent/SetCell/Fill/Clear/SetStyle/ShowCursor/HideCursor/LockRegion/identical re-stores/Show/Sync/SetSize); after every Show/Sync every visible unlocked cell of GetContents() must hold the runes and resolved style last set (wide rune in the last column blank) and Bytes = encoder -> registered fallback -> '?'; SetSize must keep the overlap and deliver a resize event with the new size; GetCursor must reflect ShowCursor. Injection: InjectKey/InjectMouse batches and InjectKeyBytes of every valid single character of each charset and of seeded strings (incl. a multi-byte character at the end) must come out of PollEvent in order, exactly. distinct = distinct (charset, history) / (charset, string)."
-	r.Assumptions = []string{"the column covered by a wide rune is don't-care in GetContents()", "cells holding StyleDefault accept any default style set since the last Sync", "events are injected in batches of at most 10 with a draining poller (the queue is bounded by design)"}
+	r.Rule = "SimulationScreen in UTF-8 and legacy charsets, in lock-step with the shared shadow model: seeded draw histories (SetContent/SetCell/Fill/Clear/SetStyle/ShowCursor/HideCursor/LockRegion/identical re-stores/Show/Sync/SetSize); after every Show/Sync every visible unlocked cell of GetContents() must hold the runes and resolved style last set (wide rune in the last column blank) and Bytes = encoder -> registered fallback -> '?'; SetSize must keep the overlap and deliver a resize event with the new size; GetCursor must reflect ShowCursor. Injection: InjectKey/InjectMouse batches (1-60 events, a quarter longer than the queue; mouse coordinates inside, on and beyond the edges) and InjectKeyBytes of every valid single character of each charset and of seeded strings (incl. a multi-byte character at the end) must come out of PollEvent in order, exactly. distinct = distinct (charset, history) / (charset, string)."
+	r.Assumptions = []string{"the column covered by a wide rune is don't-care in GetContents()", "cells holding StyleDefault accept any default style set since the last Sync", "events are injected with a draining poller running (the queue is bounded by design: the injector is held back when it is full)"}
 	sessions := []simSess{{cs: "UTF-8"}}
 	for _, cs := range legacyCharsets {
 		switch cs.name {
@@ -347,6 +347,9 @@ func c18inject(r *core.Run, ss simSess) {
 	for bi := 0; bi < nb; bi++ {
 		rg := r.Rand("inj", ss.cs, bi)
 		n := 1 + rg.IntN(10)
+		if bi%4 == 3 {
+			n = 11 + rg.IntN(50) // more than the queue holds: the injector is held back, order kept
+		}
 		var want []NEv
 		type inj struct {
 			key   tcell.Key
@@ -369,6 +372,10 @@ func c18inject(r *core.Run, ss simSess) {
 				want = append(want, normEv(tcell.NewEventKey(key, rn, mod)))
 			} else {
 				x, y := rg.IntN(80), rg.IntN(25)
+				if rg.IntN(4) == 0 {
+					// at, beyond and before the edges: delivered exactly as injected
+					x, y = rg.IntN(400)-20, rg.IntN(200)-20
+				}
 				btn := []tcell.ButtonMask{tcell.ButtonNone, tcell.Button1, tcell.Button2, tcell.Button3, tcell.WheelUp, tcell.WheelDown, tcell.Button1 | tcell.Button2}[rg.IntN(7)]
 				mod := tcell.ModMask(rg.IntN(16))
 				injs = append(injs, inj{mouse: true, x: x, y: y, btn: btn, mod: mod})
@@ -453,7 +460,11 @@ func c18inject(r *core.Run, ss simSess) {
 		rg := r.Rand("bytes", ss.cs, si)
 		var want []rune
 		var b []byte
-		for k := 0; k < 1+rg.IntN(9); k++ {
+		nch := 1 + rg.IntN(9)
+		if si%5 == 4 {
+			nch = 12 + rg.IntN(40) // more characters than the event queue holds
+		}
+		for k := 0; k < nch; k++ {
 			j := pickRune(rg, len(runes))
 			want = append(want, runes[j])
 			b = append(b, encs[j]...)
